@@ -14,6 +14,9 @@ RULE = (
     "against the reference executor.  Static: only r0..r15/sp/ra occur; a rejection must be the out-of-registers error.  "
     "Non-trivial case = >= 2 distinct effect traces explored."
 )
+RULE += (
+    ' Also CALLARG (calls as call arguments) and LIST contexts that bind the looked-up value to a name read twice.'
+)
 ASSUME = [
     "reference IC10 machine M and reference executor R as in C01",
     "pre-allocation register names are captured by wrapping generate_code.assign_registers in the harness; instruction k of the "
@@ -28,7 +31,7 @@ def build_cases(tier):
     for c in F.reg(tier):
         fam = "W-F04a" if c["shape"] == "refid-struct" else "REG"  # register-held device id in a function scope: F-04a
         cases.append(dict(c, family=fam, variants=CONV, reject_must_match=r"(?i)register", static=["regs"]))
-    for c in F.func(tier) + F.func2(tier)[:: (3 if tier == "quick" else 1)]:
+    for c in F.func(tier) + F.func2(tier)[:: (3 if tier == "quick" else 1)] + F.callarg(tier):
         for cc in common.split_call_case(c, CONV):
             cases.append(dict(cc, static=["regs"]))
     for c in F.func3(tier):
